@@ -1097,6 +1097,9 @@ SOFT_TRANSFORM = soft_modules(["RbV.Thm.GenSrcTransformModel"], "the mirror mode
                                 "`transform_text` (the property-level theorem `transform_text_source_eq_model`, `Transform.Ok`, is "
                                 "checked separately)")
 EXTRACTORS["C03"] = EXTRACTORS["C03"] + [SOFT_TRANSFORM]
+SOFT_LCP = soft_modules(["RbV.Thm.GenSrcLcpModel"], "the mirror model `Kasai.kasaiGo` no longer follows `lcp` step by step (the "
+                        "property-level theorem `lcp_source_exact` is model-free and checked separately)")
+EXTRACTORS["C03"] = EXTRACTORS["C03"] + [SOFT_LCP]
 
 # genalign: the pairwise aligner (C01; the traceback cell / matrix part also C02) — dialect "align" of tools/rs2lean_genalign.py;
 # Thm/C01.lean imports RbV.Thm.GenSrcPw* and restates the theorems
